@@ -93,7 +93,8 @@ def accept_obligations(world):
             v = z3.Int("v")
             lo, hi, why = REACH.get((cname, a), (None, None, "any value of the field's type"))
             reach = z3.And(*( [v >= lo] if lo is not None else []), *([v <= hi] if hi is not None else [])) if lo is not None or hi is not None else z3.BoolVal(True)
-            acc = []
+            acc, undecidable = [], None
+            sv = z3.String("sv")  # a string field's value: every string is reachable (descriptions, sketch names, versions are stored as received)
             for vd in f.validators:
                 if isinstance(vd, LibObj) and vd.kind == "mm_range":
                     if vd.min is not None:
@@ -102,10 +103,20 @@ def accept_obligations(world):
                         acc.append(v <= vd.max)
                 elif isinstance(vd, LibObj) and vd.kind == "mm_oneof":
                     acc.append(z3.Or(*[v == c for c in vd.choices if isinstance(c, int)]))
+                elif isinstance(vd, LibObj) and vd.kind == "mm_length" and f.ftype in ("Str", "String"):
+                    n = z3.Length(sv)
+                    acc += [n == vd.equal] if vd.equal is not None else []
+                    acc += [n >= vd.min] if vd.min is not None else []
+                    acc += [n <= vd.max] if vd.max is not None else []
+                else:
+                    undecidable = f"validator {vd!r} has no accept-domain model"
             s = z3.Solver()
             s.add(reach, z3.Not(z3.And(*acc) if acc else z3.BoolVal(True)))
-            r = s.check()
-            model = {"value": s.model()[v].as_long()} if r == z3.sat and s.model()[v] is not None else None
-            out.append({"name": f"C13/accept[{cname}.{a}]", "tag": "property", "status": "unsat" if r == z3.unsat else "sat", "secs": 0.0,
-                        "backend": "z3", "unit": cname, "path": [f"reach: {why}"], "model": model})
+            r = s.check() if undecidable is None else z3.unknown
+            model = None
+            if r == z3.sat:
+                m = s.model()
+                model = {"value": m[v].as_long()} if m[v] is not None else ({"value": m[sv].as_string()} if m[sv] is not None else None)
+            out.append({"name": f"C13/accept[{cname}.{a}]", "tag": "property", "status": "unsat" if r == z3.unsat else ("sat" if r == z3.sat else "unknown"), "secs": 0.0,
+                        "backend": "z3", "unit": cname, "path": [f"reach: {why}"] + ([undecidable] if undecidable else []), "model": model})
     return out
